@@ -46,7 +46,7 @@ func init() {
 		MinEvals:    floor(40000, 450000),
 		MinDistinct: floor(20000, 400000),
 		RequiredCells: func(string) []string {
-			cells := []string{"chunk/one-byte", "chunk/half", "chunk/data-err", "chunk/random", "car/legit-boundary-cut", "write/final-flush-fault", "write/bytes-equal-buffered", "write/cid-of-written-bytes"}
+			cells := []string{"chunk/one-byte", "chunk/half", "chunk/data-err", "chunk/random", "car/legit-boundary-cut", "write/final-flush-fault", "write/clean-call-after-faulted-call", "read/clean-call-after-faulted-calls", "write/bytes-equal-buffered", "write/cid-of-written-bytes"}
 			for _, api := range []string{"token.FromSealedReader", "delegation.FromSealedReader", "invocation.FromSealedReader", "token.FromDagCborReader", "token.FromDagJsonReader", "token.DecodeReader", "container.FromCborReader", "container.FromCarReader", "container.FromCborBase64Reader", "container.FromCarBase64Reader"} {
 				cells = append(cells, "read-fault/"+api+"/err0", "read-fault/"+api+"/errN", "read-fault/"+api+"/cut")
 			}
@@ -482,6 +482,15 @@ func runC18(w *mon.W) {
 					}
 				}
 			}
+			// failed reads leave nothing behind: a clean read afterwards gives the first result
+			again := api.f(bytes.NewReader(a.data))
+			w.Eval(1)
+			w.Cover("read/clean-call-after-faulted-calls")
+			if !again.same(base) {
+				m := c()
+				m["error"] = errStr(again.err)
+				w.Violate("read/state-left-by-failed-calls/"+api.name, fmt.Sprintf("after the faulted reads, %s on the plain stream gives a different result than before (err=%v)", api.name, again.err), m)
+			}
 		}
 	}
 
@@ -670,6 +679,35 @@ func c18WriteFaults(w *mon.W, api, desc string, refBytes []byte, f func(io.Write
 			w.Violate(fmt.Sprintf("write/fault-swallowed/%s/%s-call", api, pos),
 				fmt.Sprintf("%s returns success although Write call %d of %d failed", api, i+1, n), m)
 		}
+		// a failed call leaves nothing behind: the next, fault-free call of the same API writes
+		// what the first fault-free call wrote (same bytes; for containers, whose entry order is
+		// not fixed, the same number of bytes and the same multiset of bytes)
+		if i%3 == 0 || last {
+			again := &faultWriter{failAt: -1}
+			_, err2 := f(again)
+			w.Eval(1)
+			w.Cover("write/clean-call-after-faulted-call")
+			same := bytes.Equal(again.buf.Bytes(), clean.buf.Bytes())
+			if !same && refBytes == nil && again.buf.Len() == clean.buf.Len() {
+				x, y := again.buf.Bytes(), clean.buf.Bytes()
+				if strings.Contains(api, "Base64") {
+					dx, e1 := base64.StdEncoding.DecodeString(string(x))
+					dy, e2 := base64.StdEncoding.DecodeString(string(y))
+					if e1 == nil && e2 == nil {
+						x, y = dx, dy
+					}
+				}
+				same = byteHistogram(x) == byteHistogram(y)
+			}
+			if err2 != nil || !same {
+				m := cs()
+				m["failed_write_call_before"] = i
+				m["clean_bytes"] = clean.buf.Len()
+				m["bytes_after_fault"] = again.buf.Len()
+				m["after_fault_hex"] = mon.Hex(capBytes(again.buf.Bytes(), 2048))
+				w.Violate("write/state-left-by-failed-call/"+api, fmt.Sprintf("after a call of %s whose Write call %d failed, a fault-free call writes %d bytes (err=%v) where the first fault-free call wrote %d", api, i+1, again.buf.Len(), err2, clean.buf.Len()), m)
+			}
+		}
 	}
 	// a sink that accepts fewer bytes than offered and reports no error (the io.Writer contract
 	// forbids it, a full pipe or a buggy wrapper does it anyway): the output is incomplete, so a
@@ -697,4 +735,12 @@ func c18WriteFaults(w *mon.W, api, desc string, refBytes []byte, f func(io.Write
 	if strings.Contains(api, "Base64") && n < 2 {
 		w.Inconclusive("C18: base64 writer made fewer than 2 Write calls")
 	}
+}
+
+func byteHistogram(b []byte) [256]int {
+	var h [256]int
+	for _, x := range b {
+		h[x]++
+	}
+	return h
 }
